@@ -31,6 +31,14 @@ func vFlatten(prefix string, v any, out map[string]any) {
 	out[prefix] = v
 }
 
+// a loader that reads what has been merged so far (a profile / import style loader)
+type vProfileLoader struct{ c Configure }
+
+func (l *vProfileLoader) LoadConfig() ([]byte, error) {
+	v, _ := l.c.Get("solo0").(string)
+	return []byte("imported: <" + v + ">\n"), nil
+}
+
 func VerifC15Merge() {
 	// a process environment variable that happens to be named like a configuration key supplies nothing
 	os.Setenv("ZZVTOP", "from-env")
@@ -75,6 +83,8 @@ func VerifC15Merge() {
 		}
 		c.AddLoaders(loader.NewRawLoader([]byte(doc)))
 	}
+	c.AddLoaders(&vProfileLoader{c: c})
+	put("imported", "<s0>")
 	nd.Assert(c.Initialize() == nil, "C15: loading succeeds")
 	for _, k := range order {
 		nd.Assert(c.Get(k) == any(want[k]), "C15: for a key supplied by several loaders the last one wins, and keys supplied by only one loader stay visible")
@@ -92,6 +102,15 @@ func VerifC15Merge() {
 	}
 	if overlap {
 		nd.Cover("overlapping documents merged")
+	}
+	// a source added after the configuration has been read, then loaded: it is the last in the sequence
+	if nd.Bool() {
+		c.AddLoaders(loader.NewRawLoader([]byte("zzvtop: again\nlate: l\nn:\n  y: yy\n")))
+		nd.Assert(c.Initialize() == nil, "C15: loading succeeds")
+		nd.Assert(c.Get("zzvtop") == any("again") && c.Get("late") == any("l") && c.Get("n.y") == any("yy"),
+			"C15: a source added and loaded after the configuration was already read wins for its keys and shows its new keys")
+		nd.Assert(c.Get("solo0") == any("s0") && c.Get("imported") == any("<s0>"), "C15: keys supplied by only one loader stay visible")
+		nd.Cover("source added after a first read")
 	}
 	// runtime Set after a first read: every later Get answers from the current configuration
 	first := c.Get("n.x")
